@@ -67,6 +67,17 @@ def stream_ok(vals, line):
     return None
 
 
+def seed_check(sd):
+    """the constructor seeds the uniform source with exactly the given seed, for every non-zero seed (negative ones too)"""
+    def chk(vals, line):
+        t = line.split()
+        if not t or t[0] != 'ok': return 'error result ' + line[:100]
+        want = 'none' if sd == 0 else str(sd)
+        if t[1] != want: return 'BoxMuller(%d) seeded the source with %s (expected %s): the stream is not reproducible from the seed' % (sd, t[1], want)
+        return None
+    return chk
+
+
 def rint(g):
     k = g.random()
     if k < 0.25: return g.choice([0, RAND_MAX, RAND_MAX // 2, RAND_MAX // 2 + 1, 1, RAND_MAX - 1])
@@ -90,7 +101,8 @@ def gen_C18(g, tier):
         seed = g.choice([g.randint(1, 10 ** 6), g.randint(-2 ** 31, 2 ** 31 - 1), g.randint(2 ** 31, 2 ** 40), -g.randint(1, 2 ** 40)])
         cs.append(Case('bm.real %d %d' % (seed, g.choice([1, 2, 3, 11, 64, 257, 1000 if tier == 'quick' else 5000])), 'cmp', 'seeded-stream'))
         cs.append(Case('lcg.seq %d %d' % (seed, g.randint(1, 50)), 'cmp', 'lcg'))
-        cs.append(Case('bm.seed %d' % g.choice([0, seed, 1, -1]), 'cmp', 'ctor-seed'))
+        sd = g.choice([0, seed, 1, -1, -seed])
+        cs.append(Case('bm.seed %d' % sd, 'cmp', 'ctor-seed', check=seed_check(sd)))
     for _ in range(n):
         npairs = g.choice([1, 2, 3, 5, 8, 20, 60, 200])
         us = stream(g, npairs)
